@@ -704,6 +704,81 @@ func init() {
 		Explanation: "Decides comparator totality per key (path enumeration over Less with the ordering domain), comparator sibling agreement (every arm of compare asserts both operands to the same type and decides both directions), operator nesting and argument wiring of Sort/Offset/Limit in every planner path, and the counter predicates of limit/offset (affine normal form).",
 		NotDecided:  []string{"sort.Sort itself (trusted)", "value comparison of mixed-type dimensions", "precision of numeric comparison (values)"},
 		Assumptions: []string{"compare(x,y) < 0 iff x sorts before y (its shape is checked by C09.b, its arithmetic is not)"},
-		Rules:       []func(*Ctx){func(c *Ctx) { ruleC09a(c, "C09.a") }, func(c *Ctx) { ruleC09b(c, "C09.b") }, func(c *Ctx) { ruleC09c(c, "C09.c") }, func(c *Ctx) { ruleC09d(c, "C09.d") }},
+		Rules:       []func(*Ctx){func(c *Ctx) { ruleC09a(c, "C09.a") }, func(c *Ctx) { ruleC09b(c, "C09.b") }, func(c *Ctx) { ruleC09c(c, "C09.c") }, func(c *Ctx) { ruleC09d(c, "C09.d") }, func(c *Ctx) { ruleC09e(c, "C09.e") }},
 	})
+}
+
+// ruleC09e: a whole-query pushdown hands the SQL text to every partition as it
+// is; each partition then applies the query's OFFSET to its own rows and the
+// leader applies it again (addOrderLimitOffset). The slice of the global order is
+// only right when no OFFSET reaches the partitions.
+func ruleC09e(c *Ctx, rule string) {
+	c.describe(rule, "dom: a query with a top-level OFFSET is never pushed down whole — pushdownAllowed (or Plan before it calls planClusterPushdown) tests the outermost query's Offset and that outcome cannot reach the pushdown; otherwise every partition skips its own first rows and the leader skips again")
+	pa := c.need(rule, "z/planner.pushdownAllowed")
+	pl := c.need(rule, "z/planner.Plan")
+	if pa == nil || pl == nil {
+		return
+	}
+	isTopOffset := func(fn *ssa.Function) func(v ssa.Value) bool {
+		return func(v ssa.Value) bool {
+			b, ok := v.(*ssa.BinOp)
+			if !ok {
+				return false
+			}
+			for _, x := range []ssa.Value{b.X, b.Y} {
+				if !isFieldLoad(x, "z/sql.Query.Offset") {
+					continue
+				}
+				// the base of the load is the function's own *sql.Query parameter (the outermost query)
+				if base, _, ok := fieldOf(x); ok {
+					if p, isP := resolveVal(c.P, base, fn).(*ssa.Parameter); isP && p.Parent() == fn {
+						return true
+					}
+				}
+			}
+			return false
+		}
+	}
+	guarded := false
+	// (a) in pushdownAllowed: the offset>0 outcome cannot reach 'return true'
+	for _, ci := range findIfs(pa, isTopOffset(pa)) {
+		b := ci.v.(*ssa.BinOp)
+		pos := b.Op == token.GTR || b.Op == token.NEQ // offset > 0 / offset != 0 on the true edge
+		if b.Op != token.GTR && b.Op != token.NEQ && b.Op != token.EQL && b.Op != token.LEQ {
+			continue
+		}
+		leak := false
+		for bb := range reach([]*ssa.BasicBlock{ci.succFor(pos)}, nil, nil) {
+			if len(bb.Instrs) > 0 {
+				if r, isR := bb.Instrs[len(bb.Instrs)-1].(*ssa.Return); isR && len(r.Results) == 2 {
+					if v, isC := constBool(r.Results[0]); isC && v {
+						leak = true
+					}
+				}
+			}
+		}
+		if !leak {
+			guarded = true
+		}
+	}
+	// (b) in Plan: the offset>0 outcome cannot reach planClusterPushdown
+	for _, ci := range findIfs(pl, func(v ssa.Value) bool {
+		b, ok := v.(*ssa.BinOp)
+		return ok && (isFieldLoad(b.X, "z/sql.Query.Offset") || isFieldLoad(b.Y, "z/sql.Query.Offset"))
+	}) {
+		b := ci.v.(*ssa.BinOp)
+		pos := b.Op == token.GTR || b.Op == token.NEQ
+		leak := false
+		for bb := range reach([]*ssa.BasicBlock{ci.succFor(pos)}, nil, nil) {
+			for _, in := range bb.Instrs {
+				if call, ok := in.(ssa.CallInstruction); ok && isCall(call, "z/planner.planClusterPushdown") {
+					leak = true
+				}
+			}
+		}
+		if !leak {
+			guarded = true
+		}
+	}
+	c.check(rule, "pushdown never hands an OFFSET to the partitions", pa.Pos(), guarded, "a top-level OFFSET forbids the whole-query pushdown", "a query with LIMIT offset, n can be pushed down whole: every partition drops its own first 'offset' rows and the leader drops 'offset' rows again, so the rows returned are not rows offset+1..offset+n of the global order (wrong even with a single partition)")
 }
